@@ -61,7 +61,6 @@ Proof.
     + destruct (nth_error ln i) as [t|]; [destruct (get t ix)|]; reflexivity.
   - destruct n as [b|ln].
     + destruct ix as [|i ix]; cbn [overlap get]; try reflexivity.
-      destruct (nth_error lo i) as [t|]; [destruct (get t ix)|]; reflexivity.
     + rewrite overlap_dim. destruct ix as [|i ix]; cbn [get]; [reflexivity|].
       rewrite zipo_nth.
       destruct (nth_error lo i) as [a|] eqn:Ha; destruct (nth_error ln i) as [b|] eqn:Hb; try reflexivity.
@@ -88,8 +87,8 @@ Qed.
 Lemma overlap_has_shape : forall (o n : tensor) s, has_shape n s = true -> has_shape (overlap o n) s = true.
 Proof.
   induction o as [a|lo IH] using tensor_ind'; intros n s Hn.
-  - destruct n; cbn [overlap]; auto. destruct s; cbn in *; auto.
-  - destruct n as [b|ln]; cbn [overlap]; auto. rewrite overlap_dim.
+  - destruct n; cbn [overlap]; auto.
+  - destruct n as [b|ln]; [exact Hn|]. rewrite overlap_dim.
     destruct s as [|d s]; cbn [has_shape] in *; [discriminate|].
     apply andb_true_iff in Hn as [Hl Hf]. rewrite zipo_length, Hl. cbn [andb].
     clear Hl. revert ln Hf. induction IH as [|a lo Ha _ IHlo]; intros ln Hf.
@@ -150,7 +149,7 @@ Proof.
       * assert (Hi : i < d) by (rewrite <- Hl; apply nth_error_Some; congruence).
         apply Nat.ltb_lt in Hi. rewrite Hi. cbn [andb].
         rewrite Forall_forall in IH. apply (IH t (nth_error_In _ _ Hn)).
-        eapply forallb_nth_error; eauto.
+        exact (forallb_nth_error (fun x => has_shape x s) l i t Hf Hn).
       * apply nth_error_None in Hn. assert (Hi : (i <? d) = false) by (apply Nat.ltb_ge; lia).
         rewrite Hi. cbn [andb]. split; [discriminate|intros [? H]; discriminate].
 Qed.
@@ -326,7 +325,7 @@ Proof.
   eapply Forall_impl; [|exact Wn]. intros [k p] Wp. unfold preserve_one.
   destruct (lookup k old) as [op|] eqn:Ho; [|exact Wp].
   destruct (size_eqb _ _); cbn [snd].
-  - eapply wf_lookup; eauto.
+  - exact (wf_lookup old k op Wo Ho).
   - unfold wf_param. cbn [p_data p_size]. apply overlap_has_shape. exact Wp.
 Qed.
 
